@@ -223,6 +223,21 @@ def e2e(ctx, descs, bad_rate):
                 names.setdefault(group_of(fn), [])
                 if bn not in names[group_of(fn)]:
                     names[group_of(fn)].append(bn)
+        # the file-level blocks of one Fortran module all carry that module's own scope (library: none, namespace a::b:
+        # "namespace.a::b."), so that code supplied for a module lands in that module only
+        FILE_LEVEL = ("file_top", "module_use", "module_top", "additional_interfaces", "additional_functions")
+        for fn, data in files0.items():
+            if group_of(fn) != "f":
+                continue
+            pref = {}
+            for (bn, _) in parse_blocks(data.decode("utf-8", "replace")):
+                last = bn.rsplit(".", 1)[-1]
+                if last in FILE_LEVEL and "class." not in bn:
+                    pref.setdefault(bn[:-len(last)], []).append(last)
+            ctx.count(1, (name, "file-level-scope", fn))
+            if len(pref) > 1:
+                fails.append({"kind": "file-level-blocks-of-one-module-carry-different-scopes", "corpus": name, "route": "baseline", "file": fn,
+                              "scopes": {k: v for k, v in pref.items()}})
         # names the description's own splicer files already define (a second definition is a diagnosed error)
         predefined = set()
         try:
@@ -359,7 +374,76 @@ def e2e(ctx, descs, bad_rate):
             if len(ctx.samples) < 6 and chosen:
                 k = next(iter(chosen))
                 ctx.sample({"e2e": name, "route": route, "block": k, "body": chosen[k][0]})
+            if route == "file":
+                fails += round_trip(ctx, name, ypath, cmdline, d1, od, files1, names, has_own_splicer_key)
         ctx.traces += 1
+    return fails
+
+
+def round_trip(ctx, name, ypath, cmdline, d1, od, files1, names, has_own_splicer_key):
+    """Feed the generated files (which now hold the user's code in their blocks) back as splicer files: the regenerated output is
+    the same.  A language group takes part when none of its block names occurs in two of its files (the same name given twice is
+    a diagnosed error) and none of its supplied lines is of a recorded-finding kind (TAB / trailing '+')."""
+    import corpus
+    fails = []
+    back, direct, listed = [], [], {}
+    if has_own_splicer_key or any(not a.endswith((".yaml", ".json")) and os.path.splitext(a)[1] for a in (cmdline or []) if not a.startswith("-")):
+        # the description already names splicer files: their blocks are in the generated files too and would be defined twice
+        ctx.hist("e2e:roundtrip-skipped:description-has-splicer-files")
+        return fails
+    for g in names:
+        seen, dup, bad = {}, False, False
+        gfiles = [fn for fn in files1 if group_of(fn) == g and not fn.endswith((".json", ".log"))]
+        for fn in gfiles:
+            txt = files1[fn].decode("utf-8", "replace")
+            for (bn, lines) in parse_blocks(txt):
+                if bn in seen and seen[bn] != fn:
+                    dup = True
+                seen[bn] = fn
+                if any("\t" in l or l.rstrip().endswith("+") for l in lines):
+                    bad = True
+        if dup or bad or not seen:
+            ctx.hist("e2e:roundtrip-skipped:" + g + (":dup" if dup else ":finding-lines" if bad else ":none"))
+            continue
+        mine = [os.path.join(od, fn) for fn in gfiles if parse_blocks(files1[fn].decode("utf-8", "replace"))]
+        if g in ("py", "lua"):
+            # (a generated Python / Lua source has the suffix of a C++ file: it is named as a splicer file of its language in a
+            #  description's `splicer:` key)
+            if has_own_splicer_key:
+                ctx.hist("e2e:roundtrip-skipped:" + g + ":own-splicer-key")
+                continue
+            listed[g] = mine
+        else:
+            direct += mine
+        back += mine
+        ctx.hist("e2e:roundtrip:" + g)
+    if not back:
+        return fails
+    od2 = os.path.join(d1, "out2")
+    os.makedirs(od2, exist_ok=True)
+    if listed:
+        import yaml
+        fny = os.path.join(d1, "roundtrip_splicer_files.yaml")
+        with open(fny, "w", encoding="utf-8") as fp:
+            yaml.safe_dump({"splicer": listed}, fp)
+        direct = [fny] + direct
+    cmd = corpus.shroud_cmd(ypath, od2, cmdline)
+    cmd = cmd[:-1] + [ypath] + direct
+    rc, out = vlib.sh(cmd, timeout=300)
+    if rc != 0:
+        return [{"kind": "run-failed", "corpus": name, "route": "roundtrip", "output": out[-800:]}]
+    files2 = corpus.read_dir(od2)
+    for fn in sorted(files1):
+        if os.path.join(od, fn) not in back:
+            continue
+        b1 = dict(parse_blocks(files1[fn].decode("utf-8", "replace")))
+        b2 = dict(parse_blocks(files2.get(fn, b"").decode("utf-8", "replace")))
+        for bn, lines in b1.items():
+            ctx.count(1, (name, "roundtrip", fn, bn))
+            if norm(b2.get(bn, ["<missing>"])) != norm(lines):
+                fails.append({"kind": "block-differs", "corpus": name, "route": "roundtrip", "group": group_of(fn), "block": bn, "file": fn,
+                              "supplied": lines, "found": b2.get(bn), "line_kinds": []})
+                break
     return fails
 
 
@@ -522,6 +606,21 @@ def run(ctx):
     descs = corpus.test_descs()
     pick = {"tutorial", "classes", "strings", "templates"} if quick else None     # (templates: block names emitted once per instantiation)
     descs = [d for d in descs if pick is None or d[0] in pick]
+    # a namespace with a function of its own and two nested namespaces: the file-level blocks of every Fortran module carry the
+    # name of that module's namespace (outer, outer::inner, outer::second), whatever was wrapped last
+    import yaml
+    nsd = os.path.join(ctx.bdir, "nslib")
+    os.makedirs(nsd, exist_ok=True)
+    nsy = os.path.join(nsd, "nslib.yaml")
+    yaml.safe_dump({"library": "nslib", "cxx_header": "nslib.hpp", "options": {"wrap_python": True, "wrap_lua": False},
+                    "declarations": [{"decl": "void top(int a)"},
+                                     {"decl": "namespace outer", "declarations": [
+                                         {"decl": "void f(int a)"},
+                                         {"decl": "namespace inner", "declarations": [{"decl": "void g(int a)"}, {"decl": "class Ci", "declarations": [{"decl": "void m()"}]}]},
+                                         {"decl": "namespace second", "declarations": [{"decl": "void h(double a)"}]}]},
+                                     {"decl": "namespace tail", "declarations": [{"decl": "int t()"}]}]},
+                   open(nsy, "w"), sort_keys=False)
+    descs = descs + [("gen-nested-ns", nsy, [])]
     fails = e2e(ctx, descs, bad_rate=0.12) + decl_route(ctx, bad_rate=0.2)
     for f in fails:
         keys = classify(f)
